@@ -20,7 +20,7 @@ H = {
     'to_le_bytes_spec': ('k_bytes.rs', 'crate', ('quick', 'thorough'), 'u32/u64::to_le_bytes == le_bytes', 'complete (loop-free)'),
     'pack_roundtrip': ('k_bytes.rs', 'crate', ('thorough',), 'R10 cross-check: pack_uint_in / unpack_uint / pack_size on the unmodified generic code', 'complete (8-iteration loops)'),
     'crc_byte_step_is_bitwise': ('k_tables.rs', 'crate', ('quick', 'thorough'), 'TABLE byte step == 8 bitwise CRC-32C steps', 'complete (all c, b)'),
-    'masked_spec': ('k_tables.rs', 'crate', ('quick', 'thorough'), 'CheckSummer::masked == rotr15 + 0xA282EAD8', 'complete'),
+    'masked_spec': ('k_tables.rs', 'crate', ('quick', 'thorough', 'fallback'), 'CheckSummer::masked == rotr15 + 0xA282EAD8', 'complete'),
     'table16_row0': ('k_tables.rs', 'crate', ('quick', 'thorough'), 'TABLE[0]==0, TABLE16[0]==TABLE', 'complete (256 concrete entries)'),
     'table_xor_linear': ('k_tables.rs', 'crate', ('thorough',), 'TABLE is XOR-linear in its index', 'complete (two symbolic bytes)'),
     'common_tables': ('k_common.rs', 'crate', ('quick', 'thorough'), 'COMMON_INPUTS / _INV: index <= 63, inverse pair', 'complete (256 concrete entries)'),
@@ -55,6 +55,7 @@ for _s in ('StateOneTransNext', 'StateOneTrans'):
     for _f in ('new', 'set_common_input', 'common_input', 'input_len'):
         FALLBACK[_s + '::' + _f] = 'bits_state_one'
 FALLBACK['State::new'] = 'bits_state_new'
+FALLBACK['CheckSummer::masked'] = 'masked_spec'
 FALLBACK['pack_size'] = 'bits_pack_size'
 FALLBACK['pack_delta_size'] = 'bits_pack_size'
 for j in range(15):
